@@ -36,8 +36,12 @@ func (e *Engine) queryText(o *Obligation, cvc5 bool) string {
 		b.WriteString("(set-option :produce-models true)\n")
 	}
 	fmt.Fprintf(&b, "; obligation %s :: %s\n; %s\n; at %s\n", o.Fn, o.Name, o.Desc, o.Pos)
-	b.WriteString(e.d.prelude())
-	b.WriteString(e.d.axiomsFor(strings.Join(o.Assumps, "\n") + "\n" + o.Goal))
+	d := o.D
+	if d == nil {
+		d = e.d
+	}
+	b.WriteString(d.prelude())
+	b.WriteString(d.axiomsFor(strings.Join(o.Assumps, "\n") + "\n" + o.Goal))
 	for _, a := range o.Assumps {
 		b.WriteString("(assert ")
 		b.WriteString(a)
